@@ -1,6 +1,10 @@
 mod chain;
+mod monitors;
 mod report;
 mod rng;
+mod simnode;
+mod tower;
+mod towerhist;
 mod txindex;
 
 use std::path::PathBuf;
@@ -30,6 +34,10 @@ fn main() {
         "txindex" => {
             txindex::run(seed, thorough, &mut rep);
             rep.finish("every connect/disconnect sequence of the given length over a small key universe (keys unique in the active chain, re-appearing only in replacement blocks) for N in 1..3, plus random sequences with reorgs at N=6 and N=100; a case is non-trivial when it has a disconnect and a block with keys; distinct = distinct op sequences", true);
+        }
+        "tower" => {
+            towerhist::run(seed, thorough, &mut rep);
+            rep.finish("random tower histories (registrations, valid/garbled/multi-slot submissions and updates by several users on shared locators, signature mutations, blocks with disputes/penalties, same-block dispute+penalty, reorgs, walks past expiry and past 100 confirmations, scripted node verdicts); non-trivial = at least one accepted appointment and one non-empty block; distinct = distinct outcome shapes", false);
         }
         other => {
             eprintln!("unknown component {other}");
